@@ -1,6 +1,7 @@
 (* SlowSQLProofs.v -- properties of the SlowSQLs model (SlowSQL.v). *)
 From Coq Require Import List ZArith NArith Arith Bool Lia Permutation.
 From Verif Require Import Heap HeapProofs TopK SlowSQL.
+From Verif.Gen Require Import Limits_gen.
 Import ListNotations.
 Open Scope nat_scope.
 
@@ -538,6 +539,9 @@ Proof.
   exact H.
 Qed.
 
+Lemma max_slowsqls_documented : MaxSlowSQLs = 10%Z.
+Proof. reflexivity. Qed.
+
 Lemma slowsql_cap K obs : sl_cap (run_slow K obs) = K.
 Proof.
   unfold run_slow, new_slow_sqls.
@@ -557,3 +561,10 @@ Proof. repeat constructor; cbn; lia. Qed.
 
 Example wrap_example : wrap_i32 (2147483647 + 1) = (-2147483648)%Z /\ wrap_u64 (2 ^ 64 - 1 + 2) = 1%Z.
 Proof. split; vm_compute; reflexivity. Qed.
+
+Example merge_step_example :
+  let a := mkSlow 7 1 10 10 10 1 1 1 1 1 in
+  let b := mkSlow 8 1 20 20 20 2 2 2 2 2 in
+  let o := mkSlow 8 2 90 30 60 3 3 3 3 3 in
+  sl_items (observe (mkSlows 2 [a; b]) o) = [a; mkSlow 8 3 110 20 60 3 3 3 3 3].
+Proof. vm_compute. reflexivity. Qed.
